@@ -239,6 +239,19 @@ func (x *Explorer) atLoopHead(st *State, f *Frame, li *LoopInfo) {
 	}
 	if al := f.loops[li.Header]; al != nil {
 		// arrival over a back edge: preservation, then the path ends
+		for name, sym := range al.havocSym {
+			if cur := st.heap[name]; cur != nil && !freshAbove(cur, sym, al.entryK) {
+				if st.dry {
+					al.broken[name] = true
+				} else if al.kept[name] != nil {
+					// cannot happen when the dry runs covered this path; proved rather than assumed
+					r := st.freshInt("frame_r")
+					st.skolems = append(st.skolems, r)
+					x.emit(st, "inv-preserve", "entry-frame:"+name, site, Implies(Le(r, IntLit(al.entryK)), Eq(Select(cur, r), Select(sym, r))), "(implicit loop frame)")
+					st.skolems = st.skolems[:len(st.skolems)-1]
+				}
+			}
+		}
 		if !st.dry {
 			env := x.specEnv(st, f, f.contract)
 			env.iterHeap, env.iterCells = al.iterHeap, al.iterCells
@@ -274,6 +287,8 @@ func (x *Explorer) atLoopHead(st *State, f *Frame, li *LoopInfo) {
 	// first arrival: infer the set of heap arrays written by the body (fixpoint over dry runs)
 	W := map[string]string{}
 	seen := map[string]bool{}
+	broken := map[string]bool{}
+	entryK := int64(refBase + x.nextRef)
 	depth := len(st.frames)
 	for iter := 0; iter < 4; iter++ {
 		dry := st.clone()
@@ -289,7 +304,14 @@ func (x *Explorer) atLoopHead(st *State, f *Frame, li *LoopInfo) {
 		for _, cl := range invs {
 			x.assumeClause(dry, denv, cl)
 		}
-		df.loops[li.Header] = &activeLoop{info: li, written: W}
+		for k := range broken {
+			delete(broken, k)
+		}
+		dal := &activeLoop{info: li, written: W, entryK: entryK, broken: broken, havocSym: map[string]*Term{}}
+		for n := range W {
+			dal.havocSym[n] = dry.heap[n]
+		}
+		df.loops[li.Header] = dal
 		saved := x.work
 		x.work = []*State{dry}
 		x.runAll()
@@ -351,7 +373,22 @@ func (x *Explorer) atLoopHead(st *State, f *Frame, li *LoopInfo) {
 			}
 		}
 	}
+	entryHeap := map[string]*Term{}
+	for n := range W {
+		if h := st.heap[n]; h != nil && !broken[n] && !strings.HasPrefix(n, "map:") {
+			entryHeap[n] = h
+		}
+	}
 	x.havocLoop(st, f, li, W)
+	havocSym := map[string]*Term{}
+	for _, n := range sortedKeys(entryHeap) {
+		// the body writes this array only at objects it allocates: everything that exists on
+		// loop entry keeps its contents (checked again on every back edge)
+		havocSym[n] = st.heap[n]
+		x.fresh++
+		r := Sym(fmt.Sprintf("fr?%d", x.fresh), SInt)
+		st.assume(Forall([]*Term{r}, Implies(Le(r, IntLit(entryK)), Eq(Select(st.heap[n], r), Select(entryHeap[n], r)))))
+	}
 	if framed {
 		// implicit frame invariant: relative to the pre-state of the function, objects that
 		// existed before the call differ only at the contract's modifies locations
@@ -368,7 +405,7 @@ func (x *Explorer) atLoopHead(st *State, f *Frame, li *LoopInfo) {
 	for _, cl := range invs {
 		x.assumeClause(st, env, cl)
 	}
-	al := &activeLoop{info: li, written: W}
+	al := &activeLoop{info: li, written: W, entryK: entryK, havocSym: havocSym, kept: havocSym, broken: broken}
 	al.iterHeap = copyHeap(st.heap)
 	al.iterCells = map[*ssa.Alloc]Val{}
 	for k, v := range f.cells {
@@ -396,4 +433,22 @@ func (x *Explorer) havocLoop(st *State, f *Frame, li *LoopInfo, W map[string]str
 		}
 		st.heap[n] = st.freshSym("loopH:"+n, W[n])
 	}
+}
+
+// freshAbove: cur is base updated only at literal references of objects allocated after k.
+func freshAbove(cur, base *Term, k int64) bool {
+	for depth := 0; depth < 100000; depth++ {
+		if cur == base {
+			return true
+		}
+		if cur.Op != "store" {
+			return false
+		}
+		i := cur.Args[1]
+		if !i.IsLit() || !i.Int.IsInt64() || i.Int.Int64() <= k || i.Int.Int64() >= 1000000000 {
+			return false
+		}
+		cur = cur.Args[0]
+	}
+	return false
 }
